@@ -31,6 +31,7 @@ type netEvent struct {
 	B2      bool               `json:"b2,omitempty"`
 	Changes []model.ModeChange `json:"changes,omitempty"`
 	NoWho   bool               `json:"no_who,omitempty"` // the server does not answer the WHO requests this event triggers
+	Press   bool               `json:"press,omitempty"`  // the client's output queue is full (server not reading, application sending) when the lines arrive
 }
 
 type c13Scenario struct {
@@ -67,6 +68,11 @@ func applyNetEvent(n *model.Net, e netEvent) []string {
 		lines = n.Mode(e.U, e.Ch, e.Changes)
 	case "umode":
 		lines = []string{":" + n.MeNick() + " MODE " + n.MeNick() + " :" + e.S}
+	case "chghost":
+		n.Users[e.U].Host = e.S
+		n.Users[e.U].Ident = "c" + n.Users[e.U].Ident
+	case "appwho":
+		lines = []string{"\x00WHO " + e.Ch} // not a line: the runner calls conn.Who(channel) and serves the request
 	case "toggle":
 		// (the runner of C13 switches tracking off before these lines and on again after them)
 		if e.S != "" {
@@ -102,10 +108,30 @@ func genNetEvent(t *rapid.T, n *model.Net) (netEvent, bool) {
 		sort.Strings(cs)
 		return cs
 	}
-	kinds := []string{"join", "join", "join", "clientjoin", "clientjoin", "part", "quit", "kick", "nick", "topic", "mode", "mode", "mode", "clientpart", "adduser", "umode", "clientnick", "join", "mode", "part", "reconnect", "toggle"}
+	kinds := []string{"join", "join", "join", "clientjoin", "clientjoin", "part", "quit", "kick", "nick", "topic", "mode", "mode", "mode", "clientpart", "adduser", "umode", "clientnick", "join", "mode", "part", "reconnect", "toggle", "chghost", "appwho"}
 	switch k := rapid.SampledFrom(kinds).Draw(t, "event"); k {
 	case "reconnect":
 		return netEvent{Kind: "reconnect"}, true
+	case "chghost":
+		// a user's visible ident@host changes without any line the client could see (a services cloak);
+		// the client learns of it with the next WHO reply
+		us := online(func(i int) bool { return i != n.Me })
+		if len(us) == 0 {
+			return netEvent{}, false
+		}
+		return netEvent{Kind: "chghost", U: rapid.SampledFrom(us).Draw(t, "u"), S: rapid.SampledFrom([]string{"cloak.example", "staff.example", "10.0.0.7"}).Draw(t, "newhost")}, true
+	case "appwho":
+		// the application refreshes its picture of a channel: conn.Who(channel)
+		var cs []string
+		for _, ch := range c13Chans {
+			if n.ClientOn(ch) {
+				cs = append(cs, ch)
+			}
+		}
+		if len(cs) == 0 {
+			return netEvent{}, false
+		}
+		return netEvent{Kind: "appwho", Ch: rapid.SampledFrom(cs).Draw(t, "ch")}, true
 	case "toggle":
 		// the application switches tracking off and on again on the live client - allowed while it is on
 		// no channel - and the server may rename the client in between
@@ -152,7 +178,7 @@ func genNetEvent(t *rapid.T, n *model.Net) (netEvent, bool) {
 			return netEvent{}, false
 		}
 		return netEvent{Kind: "join", U: n.Me, Ch: rapid.SampledFrom(cs).Draw(t, "ch"), Split: rapid.IntRange(1, 3).Draw(t, "names_split"),
-			B1: rapid.Bool().Draw(t, "names_trailing_space"), B2: rapid.Bool().Draw(t, "join_colon"), NoWho: rapid.IntRange(0, 6).Draw(t, "no_who") == 3}, true
+			B1: rapid.Bool().Draw(t, "names_trailing_space"), B2: rapid.Bool().Draw(t, "join_colon"), NoWho: rapid.IntRange(0, 6).Draw(t, "no_who") == 3, Press: rapid.IntRange(0, 4).Draw(t, "press") == 2}, true
 	case "join":
 		us := online(func(i int) bool { return i != n.Me })
 		if len(us) == 0 {
@@ -494,9 +520,41 @@ func runC13(sc *c13Scenario) *Violation {
 			lines = []string{fmt.Sprintf(":%s 001 %s :Welcome back %s!%s@%s", n.Server, n.MeNick(), n.MeNick(), n.Users[0].Ident, n.Users[0].Host)}
 			history = append(history, "<client reconnects>")
 		}
+		if e.Kind == "appwho" {
+			if st == nil {
+				continue
+			}
+			tc.C.Who(e.Ch)
+			history = append(history, "<application calls Who("+e.Ch+")>")
+			lines = []string{"PING :appwho"} // (something to send, so that the request is on the wire before it is served)
+		}
+		var pressDone chan struct{}
+		if e.Press && len(lines) > 0 && e.Kind != "reconnect" {
+			// the server has stopped reading for a moment and the application keeps sending: the queue
+			// is full when these lines are handled, whatever the client wants to ask has to wait its turn
+			conn.Gate(true)
+			pressDone = make(chan struct{})
+			go func() {
+				defer close(pressDone)
+				for k := 0; k < 40; k++ {
+					tc.C.Raw(fmt.Sprintf("FILL %d", k))
+				}
+			}()
+			time.Sleep(2 * time.Millisecond)
+			history = append(history, "<output queue full>")
+		}
 		for _, l := range lines {
 			conn.SendLine(timeTag + l)
 			history = append(history, l)
+		}
+		if pressDone != nil {
+			time.Sleep(3 * time.Millisecond)
+			conn.Gate(false)
+			select {
+			case <-pressDone:
+			case <-time.After(stallTimeout()):
+				return violationf("C13", "event %d: the application's sends never returned after the server resumed reading", ei)
+			}
 		}
 		if len(lines) == 0 {
 			continue
@@ -530,6 +588,17 @@ func runC13(sc *c13Scenario) *Violation {
 		}
 		if st == nil {
 			continue // tracking not enabled yet
+		}
+		if e.Kind == "join" && e.U == n.Me {
+			// a channel's modes reach a client only in answer to MODE <channel>: a tracker that is to hold
+			// them has to have asked by now (however busy the output queue was)
+			if c, ok := n.Chans[e.Ch]; ok && !c.ModesKnown {
+				h := history
+				if len(h) > 12 {
+					h = h[len(h)-12:]
+				}
+				return &Violation{Property: "C13", Msg: fmt.Sprintf("after event %d (the client joined %s): the client never asked for the channel's modes (no MODE %s request), so the tracker cannot hold them", ei, e.Ch, e.Ch), Detail: map[string]interface{}{"last_lines": h}}
+			}
 		}
 		if d := expectedTrackerDiff(st, n, universe, "Real Name"); d != "" {
 			h := history
